@@ -662,6 +662,8 @@ package mqtt
 
 // verif:def isCode(e error, c int) bool = typeis(e, "packets.Code") && int(unboxas(e, "packets.Code").Code) == c
 // verif:func mqtt.Server.publishToClient modifies=all
+//@ axiom ndeliveries == old(ndeliveries) + 1
+//@ ensures lookup-bookkeeping-untouched: nretlookups == old(nretlookups) && lastretcount == old(lastretcount)
 //@ requires validClOut(cl) && validSrv(s) && s.Options.Capabilities.MaximumQos <= 2 && pk.FixedHeader.Qos <= 2 && sub.Qos <= 2
 //@ requires !has(ifl(cl), 0) && cl.Properties.ProtocolVersion <= 5 && pk.FixedHeader.Type == Publish
 //@ ensures C03-no-local-skips-own-message: sub.NoLocal && pk.Origin == cl.ID ==> r1 == nil && nothingQueued(cl) && tableUntouched(cl)
@@ -1064,11 +1066,15 @@ package mqtt
 // the entry point
 // every lookup of retained messages is counted (ghost)
 // verif:ghost var nretlookups int
+// lastretcount: how many messages the most recent lookup returned (ghost)
+// verif:ghost var lastretcount int
+// every delivery attempt (publishToClient) is counted (ghost)
+// verif:ghost var ndeliveries int
 // verif:func mqtt.TopicsIndex.Messages uses=rmatch-def
 //@ requires trieInv(x) && retInv(x)
 //@ requires len(filter) > 0 ==> nlevels(filter) >= 1 && nlevels(filter) <= 1099511627776 && hashLast(filter)
-//@ modifies x.Retained.ggot, nretlookups
-//@ axiom nretlookups == old(nretlookups) + 1
+//@ modifies x.Retained.ggot, nretlookups, lastretcount
+//@ axiom nretlookups == old(nretlookups) + 1 && lastretcount == len(r0)
 //@ ensures C02-a-filter-without-wildcards-returns-only-the-identical-topic: noWild(filter) ==> (forall t string :: x.Retained.ggot[t] == old(x.Retained.ggot[t]) + ((len(filter) > 0 && t == filter && has(x.Retained.internal, t)) ? 1 : 0))
 //@ ensures C02-exactly-the-matching-retained-messages-each-once: !noWild(filter) ==> (forall t string :: x.Retained.ggot[t] == old(x.Retained.ggot[t]) + ((len(filter) > 0 && retHit(x, t, nil, 0, filter)) ? 1 : 0))
 
@@ -1113,9 +1119,12 @@ package mqtt
 //@ ensures C05-shared-subscriptions-get-no-retained-messages: sharedFilter(sub.Filter) ==> nothingQueued(cl) && tableUntouched(cl)
 //@ ensures C05-retain-handling-1-sends-only-for-a-new-subscription: sub.RetainHandling == 1 && existed ==> nothingQueued(cl) && tableUntouched(cl)
 //@ ensures C05-retain-handling-2-never-sends: sub.RetainHandling == 2 ==> nothingQueued(cl) && tableUntouched(cl)
+//@ ensures C05-every-matching-retained-message-is-offered-to-the-subscriber: nretlookups == old(nretlookups) + 1 ==> ndeliveries == old(ndeliveries) + lastretcount
+//@ ensures C05-one-lookup-at-most: nretlookups == old(nretlookups) || nretlookups == old(nretlookups) + 1
 //@ callsite mqtt.TopicsIndex.Messages C05-the-retained-messages-matching-the-subscriptions-filter: arg1 == sub.Filter
 //@ callsite mqtt.Server.publishToClient C04-retained-deliveries-keep-their-retain-flag: arg2.FwdRetainedFlag && arg2.Filter == sub.Filter && arg2.Qos == sub.Qos
 // verif:loop mqtt.Server.publishRetainedToClient 1
+//@ invariant offered-so-far: nretlookups == old(nretlookups) + 1 && lastretcount == len(rangeslice) && ndeliveries == old(ndeliveries) + rangeindex + 1
 //@ invariant validClOut(cl) && validSrv(s) && s.Options.Capabilities.MaximumQos <= 2 && sub.Qos <= 2 && !has(ifl(cl), 0) && cl.Properties.ProtocolVersion <= 5 && s.Log != nil
 
 // ======================================================================================
